@@ -40,11 +40,14 @@ func (d *DuplexEnd) Write(b []byte) (int, error) {
 	d.WBytes.Add(int64(n))
 	return n, err
 }
-func (d *DuplexEnd) Close() error                       { d.r.Close(); return d.w.Close() }
-func (d *DuplexEnd) CloseRead() error                   { return d.r.Close() }
-func (d *DuplexEnd) CloseWrite() error                  { return d.w.Close() }
-func (d *DuplexEnd) LocalAddr() net.Addr                { return d.local }
-func (d *DuplexEnd) RemoteAddr() net.Addr               { return d.remote }
-func (d *DuplexEnd) SetDeadline(t time.Time) error      { d.r.SetReadDeadline(t); return d.w.SetWriteDeadline(t) }
+func (d *DuplexEnd) Close() error         { d.r.Close(); return d.w.Close() }
+func (d *DuplexEnd) CloseRead() error     { return d.r.Close() }
+func (d *DuplexEnd) CloseWrite() error    { return d.w.Close() }
+func (d *DuplexEnd) LocalAddr() net.Addr  { return d.local }
+func (d *DuplexEnd) RemoteAddr() net.Addr { return d.remote }
+func (d *DuplexEnd) SetDeadline(t time.Time) error {
+	d.r.SetReadDeadline(t)
+	return d.w.SetWriteDeadline(t)
+}
 func (d *DuplexEnd) SetReadDeadline(t time.Time) error  { return d.r.SetReadDeadline(t) }
 func (d *DuplexEnd) SetWriteDeadline(t time.Time) error { return d.w.SetWriteDeadline(t) }
